@@ -18,7 +18,7 @@ CLAIMS["C14"] = {
     "note": "Recursion depth is bounded by the guard cutting the run->execute->result->run cycle; Python's stack behaviour is modelled, not run.",
 }
 
-ARR_NOTE = "Numeric content (that a formula is the documented one) is not decided. numpy behaviour enters only through the axioms A1-A31; an operation outside the analyser's vocabulary is ANALYSIS-ERROR (exit 2)."
+ARR_NOTE = "Numeric content (that a formula is the documented one) is not decided. numpy behaviour enters only through the axioms A1-A32; an operation outside the analyser's vocabulary is ANALYSIS-ERROR (exit 2)."
 CLAIMS["C02"] = {"engine": "C-arrays", "technique": "call-graph reachability (no clean at load), effect whitelist and return-kind abstract interpretation over 36 execute bodies",
     "text": "Decides order-independence structurally: Parameter.clean is unreachable from loading and the command table is looked up by name only in ResultParameter.clean (C02.a); execute bodies have no self/global/file effects outside I/O commands (C02.b); Metadata is never read (C02.c); every Data producer returns a MaskedArray given masked inputs, so any data result can feed any data input (C02.d). Equality with the mathematical evaluation is not decided.", "note": ARR_NOTE}
 CLAIMS["C03"] = {"engine": "C-arrays", "technique": "abstract interpretation: mask-coverage (must) vs value-dependence and hidden-payload (may) sets at every return of every data command",
@@ -173,6 +173,25 @@ ADDED9 = {
     "C17": "C17.i: a dialect chosen among fixed dialect classes at run time is 'cannot decide'; C17.e accepts an int() guarded by the exact-bits round trip.",
     "C19": "C19.e: a module registered in sys.modules inside a try whose finally removes entries is 'cannot decide'.",
 }
+ADDED10 = {
+    "C01": "C01.k: no weak references to programs / commands in Command and Program; C01.l: DataParameter.clean (applied to finished producers only) accepts every array.",
+    "C02": "C02.l: the exclusive-or's singular quotient is selected away, not patched through a masked index; C02.m: MeanToMid drops the inner one of two coinciding control points from both lists (no mapping over the pairs); C02.j also requires the two half means to partition the cells.",
+    "C05": "ravel / flatten / reshape with order= other than 'C' (axiom A32).",
+    "C07": "C07.c: WeightedMean divides by the weight sum itself; C07.b: the messages of the three specific errors format without raising (named placeholders included).",
+    "C08": "C08.m: coinciding control points (as C02.m); C08.h: the half means are taken over complementary sides of the overall mean.",
+    "C09": "C09.d: no execute hands out arrays kept in module-level state or by a cached helper.",
+    "C10": "C10.k: per-parse state does not survive a parse - a fresh Parser counts only when its PLY parser is built by and bound to that object.",
+    "C11": "C11.e: inside a cleaner the reported line is the `lineno` parameter, not `<value>.lineno`.",
+    "C12": "C12.i: relative paths are refused only when the working directory is None; C12.j: the library-membership predicate (C19.a) decides which command names exist.",
+    "C13": "C13.h: nothing orders by the optional `.lineno`; C13.d checks named format placeholders.",
+    "C15": "C15.h: the text reaches the lexer unchanged (C10.i); C15.b: no bare return of a string that is not a result reference.",
+    "C17": "C17.i: reader and writer are given the same format options; C17.d: nothing removes rows between the stacked results and the file.",
+    "C18": "C18.a: the rounding guard reads the dtype of the values it rounds; C18.d: no variable is stored inside the loop that accumulates the union mask.",
+    "C19": "C19.a: tuple-prefix tests and a filter delegated to the registry accessor (unescaped regular expression); C19.c: a class-level lookup filled by __init__.",
+    "C20": "C20.g: the declared kind is accepted on every path; C20.e: InvalidRelativePath by `is None`, data-type objects looked up in the table.",
+}
+for _k, _v in ADDED10.items():
+    CLAIMS[_k]["text"] += " " + _v
 for _k, _v in ADDED9.items():
     CLAIMS[_k]["text"] += " " + _v
 for _k, _v in ADDED8.items():
